@@ -52,7 +52,13 @@ func GetIndexLetters(document *gedcom.Document, livingVisibility LivingVisibilit
 }
 
 func getIndexLetter(individual *gedcom.IndividualNode) rune {
-	name := strings.ToLower(individual.Name().Surname())
+	return indexLetterForSurname(individual.Name().Surname())
+}
+
+// indexLetterForSurname is the letter of the individual list page that shows
+// the individuals with this surname.
+func indexLetterForSurname(surname string) rune {
+	name := strings.ToLower(surname)
 
 	switch {
 	case name == "", name[0] < 'a', name[0] > 'z':
